@@ -479,3 +479,28 @@ def run(tier, seed):
                                      "the exporter is not asked to validate the request flags; object and pointer dtypes are not declared"],
                         violations=rep.n_violations())
     return rc
+
+
+def replay(path, seed):
+    """re-execute the cases of a replay file on the working tree and print what is observed now"""
+    with open(path) as f:
+        rec = json.load(f)
+    src, ids = L.module_source(SCALARS_T + STRUCTS)
+    build = _build(src)
+    if not build.ok:
+        core.die("build failed: %s" % (build.errors or "")[-2000:])
+    calls = []
+    for c in rec["cases"]:
+        call = c["call"]
+        if rec["descriptor"].get("part") == "geometry":
+            calls.append(list(call[:7]) + [True])
+        else:
+            calls.append([call[0], call[1], call[2], [L.NITEMS], None, 0, None, True])
+    obs = L.run_acquisitions(build, calls, tag="replay")
+    still = 0
+    for c, ob in zip(rec["cases"], obs):
+        same = ob == c["observed"]
+        still += same
+        print("%s\n  expected %s\n  recorded %s\n  now      %s" % (c["call"], json.dumps(c["expected"])[:300], c["observed"], ob))
+    print("descriptor %s: %d of %d case(s) observed as recorded" % (json.dumps(rec["descriptor"]), still, len(calls)))
+    return 1 if still else 0
